@@ -942,6 +942,14 @@ def _witnessed_by_flag(fm: FuncModel, loop, c, tb, prog_nodes: set[int]) -> bool
                     continue
                 elif is_true(a.value):
                     n_true += 1
+                    # the witness speaks about *this* round: it is lowered again before the next one starts (a flag that stays
+                    # up from an earlier round keeps the loop going without any progress)
+                    falses = [x for x in fm.cfg.nodes if x.kind == "stmt" and isinstance(x.ast, ast.Assign) and len(x.ast.targets) == 1
+                              and isinstance(x.ast.targets[0], ast.Name) and x.ast.targets[0].id == name and is_false(x.ast.value)]
+                    hdr_ = fm.cfg.loop_header[loop]
+                    if d.id in fm.cfg.loop_nodes[loop] and hdr_.id in fm.cfg.reach_avoiding(d, falses):
+                        ok = False
+                        break
                     free_before = d.id in _within(fm, loop, tb, prog_nodes)
                     free_after = tnode.id in _within(fm, loop, d, prog_nodes)
                     if d.id in prog_nodes:
@@ -1092,6 +1100,13 @@ def rec_geom(ck, fm: FuncModel, loop):
     probs = []
     if hdr.id in _within(fm, loop, tb, {cn.id}):
         probs.append(f"the budget counter `{c}` is not increased on every path to the next iteration")
+    # ... and nothing else writes it: a cap (`if c > M: c = M`) stops the growth, and a bound above the cap is never reached
+    for n2 in nodes:
+        if n2.kind == "stmt" and n2 is not cn and isinstance(n2.ast, (ast.Assign, ast.AugAssign, ast.AnnAssign)):
+            tg2 = n2.ast.targets[0] if isinstance(n2.ast, ast.Assign) else n2.ast.target
+            if isinstance(tg2, ast.Name) and tg2.id == c:
+                probs.append(f"line {n2.lineno}: `{text(n2.ast)[:50]}` also writes the budget counter `{c}`: with a cap or a reset the "
+                             f"counter stops growing and the budget test need never fire")
     # initial value positive constant
     pre = [d for d in fm.cfg.reaching_defs(c, hdr) if d.id not in _loop_ids(fm, loop)]
     if not pre or not all(d.kind == "stmt" and isinstance(d.ast, ast.Assign) and _pos_const(d.ast.value) for d in pre):
